@@ -42,6 +42,43 @@ def load_layouts(ctx, cfg="MC_Walk_quick.cfg"):
     return lays
 
 
+def collision_layouts(ctx, lays):
+    """multi-variant messages: layouts of one variant whose repeat count makes the payload exactly as long as ANOTHER variant of the
+    same class/ID (a selector must keep following its discriminator, not the length).  The counts are computed from the layouts TLC
+    produced for the working tree; TLC then generates the layouts for those counts (configuration written to the scratch directory)."""
+    import os
+
+    fam = {}
+    for l in lays:
+        if l["reachable"] and l["pbf"] and l["len"] is not None and l["len"] >= 0:
+            fam.setdefault((l["m"], l["cls"], l["id"]), {}).setdefault(l["name"], {})[l["c"]] = l["len"]
+    want = {}
+    for key, names in fam.items():
+        if len(names) < 2:
+            continue
+        for a, la in names.items():
+            if 0 not in la or 1 not in la or la[1] <= la[0]:
+                continue
+            step = la[1] - la[0]
+            for b, lb in names.items():
+                if b == a:
+                    continue
+                for L in set(lb.values()):
+                    if L > la[0] and (L - la[0]) % step == 0:
+                        c = (L - la[0]) // step
+                        if 3 < c <= 4000:
+                            want.setdefault(a, set()).add(c)
+    if not want:
+        return []
+    counts = sorted(set().union(*want.values()))[:12]
+    cfg = os.path.join(ctx.work, "MC_Walk_collide.cfg")
+    with open(cfg, "w") as f:
+        f.write("SPECIFICATION Spec\nCONSTANTS\n  Counts = {%s}\n  Dump = TRUE\n  Only = {%s}\nINVARIANT GenParseAgree\nINVARIANT DumpLayout\nCHECK_DEADLOCK FALSE\n"
+                % (", ".join(str(c) for c in counts), ", ".join('"%s"' % n for n in sorted(want))))
+    out = [l for l in load_layouts(ctx, cfg) if l["c"] in want.get(l["name"], ())]
+    return out
+
+
 def modeint(lay):
     return lay["m"]
 
